@@ -178,6 +178,7 @@ def run(rep: Report, tier: str) -> None:
 		ident.check('self._gen_filepath' in calls, f'symbols:{m.name}-uses-gen_filepath', m.where, f'SymbolDBPersistor.{m.name} no longer derives the file path from _gen_filepath (store and restore must agree on the identity-bearing name)')
 	rule_module_selection(rep, idx)
 	rule_eviction_pattern(rep, idx)
+	rule_symbols_follow_the_tree(rep, idx)
 	rule_content_fingerprint(rep, idx)
 	rule_cache_file_complete(rep, idx)
 	rule_stamps_fresh(rep, idx)
@@ -407,6 +408,78 @@ def rule_eviction_pattern(rep: Report, idx) -> None:
 		r.violate('find_oldest', (cache.relpath, verdict[1].lineno), f'find_oldest cuts the cache path at its FIRST `-` (`{unparse(verdict[1])}`): the path is absolute, so a hyphen in the working directory (`/home/me/my-project/.cache/...`) or in the cache key makes the eviction pattern `/home/me/my-*<ext>`; the files of earlier identities are never removed (when an mtime recurs with other content the stale tree is loaded: warm output != cold output) and unrelated files matching the pattern are unlinked', unparse(verdict[1]))
 	else:
 		r.ok('find_oldest', (cache.relpath, verdict[1].lineno))
+
+
+def rule_symbols_follow_the_tree(rep: Report, idx) -> None:
+	"""The symbol table cached for a module was inferred from ONE parse of it. Its identity (Module.identity) covers the source files only; what else
+	decides the parse — the grammar file — is part of the syntax-tree cache's identity alone. The two stay together because the tree cache, when it writes
+	a module's new tree, removes `<module>-*.json`, and the symbol file is named `<module>-symbols-<identity>.json`: a re-parse takes the symbol file with
+	it. So either the symbol file's name is matched by that eviction pattern, or Module.identity itself must cover the grammar; otherwise a grammar edit
+	leaves a symbol table of the old parse next to the new tree (warm `int y`, cold `bool y`). Both names are evaluated from the code on representatives."""
+	import fnmatch
+	from vlib import dsneval
+	r = rep.rule('C05/symbol-cache-leaves-with-the-tree', 'the file name SymbolDBPersistor._gen_filepath builds for a module is matched by the pattern CachedProxy.find_oldest removes when the module\'s tree is cached anew (or Module.identity covers the grammar)', floor=1)
+	cache = idx.mod('rogw/tranp/cache/cache.py')
+	pers = idx.mod('rogw/tranp/semantics/reflection/persistent.py')
+	parser = idx.mod('rogw/tranp/implements/syntax/lark/parser.py')
+	cp = cache.cls('CachedProxy')
+	g = cp.method('gen_cache_path') if cp else None
+	f = cp.method('find_oldest') if cp else None
+	pc = pers.cls('SymbolDBPersistor')
+	h = pc.method('_gen_filepath') if pc else None
+	if g is None or f is None or h is None:
+		r.skip('names', (cache.relpath, 1), 'CachedProxy.gen_cache_path / find_oldest or SymbolDBPersistor._gen_filepath vanished')
+		return
+	KEY, H1, H2 = 'pkg/mod', 'a1b2c3', 'd4e5f6'
+
+	def env_of(fn, extra: dict) -> dict:
+		env = dict(extra)
+		for c_ in ast.walk(fn.node):
+			if isinstance(c_, ast.Call):
+				src = unparse(c_.func)
+				if src.endswith('identifier'):
+					env[unparse(c_)] = H1
+				elif src.endswith('.get') and c_.args and const_str(c_.args[0]) == 'format':
+					env[unparse(c_)] = 'json'
+				elif src.endswith('module_path_to_filepath'):
+					env[unparse(c_)] = KEY
+				elif src.endswith('.identity') and not c_.args:
+					env[unparse(c_)] = H2
+		return env
+
+	def file_part(fn):
+		"""the expression of the file name: the last argument of os.path.join(...) in the return, or the returned expression itself"""
+		ret = next((n.value for n in ast.walk(fn.node) if isinstance(n, ast.Return) and n.value is not None), None)
+		cur = ret
+		for _ in range(4):
+			if isinstance(cur, ast.Call) and unparse(cur.func) in ('os.path.abspath', 'os.path.join', 'os.path.normpath') and cur.args:
+				cur = cur.args[-1]
+		return cur
+	key_p = [p_ for p_ in g.params() if p_ not in ('self', 'cls')][0]
+	tree_file = dsneval.evaluate(g.node, file_part(g), env_of(g, {key_p: KEY}))
+	path_p = [p_ for p_ in f.params() if p_ not in ('self', 'cls')][0]
+	glob_call = next((c_ for c_ in ast.walk(f.node) if isinstance(c_, ast.Call) and unparse(c_.func) in ('glob.glob', 'glob.iglob') and c_.args), None)
+	pattern = dsneval.evaluate(f.node, glob_call.args[0], env_of(f, {path_p: tree_file})) if glob_call is not None and isinstance(tree_file, str) else dsneval.UNKNOWN
+	sym_file = dsneval.evaluate(h.node, file_part(h), env_of(h, {}))
+	# the key of the tree cache of a module is the same path function applied to the module path
+	tree_keys = [c_.args[0] for fn in parser.functions.values() for c_ in ast.walk(fn.node) if isinstance(c_, ast.Call) and isinstance(c_.func, ast.Attribute) and c_.func.attr == 'get' and any(k.arg == 'format' and const_str(k.value) == 'json' for k in c_.keywords) and c_.args]
+	same_key = False
+	for fn in parser.functions.values():
+		for k_ in tree_keys:
+			if any(x is k_ for x in ast.walk(fn.node)):
+				v = dsneval.evaluate(fn.node, k_, env_of(fn, {}))
+				same_key = same_key or v == KEY
+	if not (isinstance(tree_file, str) and isinstance(pattern, str) and isinstance(sym_file, str) and same_key):
+		r.skip('names', h.where, f'the file names could not be evaluated (tree file {tree_file!r}, eviction pattern {pattern!r}, symbol file {sym_file!r}, tree cache keyed by the module file path: {same_key})')
+		return
+	mod = idx.mod('rogw/tranp/module/module.py')
+	idf = mod.cls('Module').method('identity') if mod.cls('Module') else None
+	covers_grammar = idf is not None and any('grammar' in unparse(x).lower() for x in ast.walk(idf.node) if isinstance(x, (ast.Attribute, ast.Name, ast.Constant)))
+	hit = fnmatch.fnmatchcase(sym_file, pattern)
+	if hit or covers_grammar:
+		r.ok('names', h.where, message=f'symbol file `{sym_file}` is matched by `{pattern}`' if hit else 'Module.identity covers the grammar')
+	else:
+		r.violate('names', h.where, f'for module {KEY} the symbol table is stored as `{sym_file}`, the tree as `{tree_file}`, and a new tree removes `{pattern}`: the symbol file survives a re-parse, and its identity (Module.identity: source hashes only) does not change when the grammar does — after an edit of the grammar file the types of the old parse are restored onto the new tree and the warm output differs from a cold run', sym_file)
 
 
 DIGESTS = {'md5', 'sha1', 'sha224', 'sha256', 'sha384', 'sha512', 'sha3_224', 'sha3_256', 'sha3_384', 'sha3_512', 'blake2b', 'blake2s'}
